@@ -263,6 +263,7 @@ func init() {
 		c.Enumerate("c08/truncate")
 		c.Enumerate("c08/get-refused")
 		c.Enumerate("c08/retry-cancel")
+		c.Enumerate("c08/server-release")
 		for _, cfg := range c08Configs() {
 			pb := c.Pick(2, 3)
 			if cfg.N == 2 || (cfg.Mode == "ls" && (cfg.Fault == "reset" || cfg.Fault == "eof")) {
@@ -541,6 +542,85 @@ func c08GetRefused(tier string, i int) CaseResult {
 	return cr
 }
 
+type c08CtxKey struct{}
+
+// c08ServerRelease: "on the server once the peer's connections are gone, the goroutines ... the
+// library created for those connections are released" - also when the server is configured with a
+// context function, whether that function derives its result from the context it is given or
+// builds it from scratch (values only, no cancellation).
+func c08ServerRelease(tier string, i int) CaseResult {
+	modes := []string{"ls", "ss", "sj"}
+	ctxKinds := []string{"none", "derived", "detached"}
+	mode, ck := modes[i%3], ctxKinds[i/3]
+	cr := CaseResult{Desc: fmt.Sprintf("server=%s context function=%s: two peers connect, call, and go away", mode, ck), Nontrivial: true}
+	var viol []explore.Violation
+	obs := &hx.Log{}
+	k := func(s string) string { return fmt.Sprintf("%s:server-release:%s:ctxfunc-%s", s, mode, ck) }
+	res := vsched.Run(vsched.Config{}, func() {
+		cf := func(ctx context.Context, r *http.Request) context.Context {
+			if ck == "detached" {
+				return context.WithValue(context.Background(), c08CtxKey{}, r.Header.Get("X-Tok"))
+			}
+			return context.WithValue(ctx, c08CtxKey{}, r.Header.Get("X-Tok"))
+		}
+		var opts []interface{}
+		if ck != "none" {
+			if mode == "ls" {
+				opts = append(opts, mcp.WithSSEContextFunc(cf))
+			} else {
+				opts = append(opts, mcp.WithHTTPContextFunc(cf))
+			}
+		}
+		r := NewRig(mode, opts...)
+		r.RegisterTool(mcp.NewTool("fast"), func(ctx context.Context, req *mcp.CallToolRequest) (*mcp.CallToolResult, error) {
+			return mcp.NewTextResult("ok"), nil
+		})
+		r.Start()
+		vsched.Quiesce()
+		base := len(libraryThreads(vsched.LiveThreads()))
+		var peers []*RawPeer
+		for n := 0; n < 2; n++ {
+			rp := NewRawPeer(r)
+			if err := rp.Handshake(); err != nil {
+				viol = append(viol, V("setup-handshake-fails", "setting the scenario up with well-behaved peers fails: %v", err))
+				return
+			}
+			if mode != "ls" {
+				rp.OpenStream()
+			}
+			if a, err := rp.Call(`{"jsonrpc":"2.0","id":5,"method":"tools/call","params":{"name":"fast"}}`, "5"); err != nil || !strings.Contains(a, "ok") {
+				viol = append(viol, V(k("call-fails"), "tools/call: %v %s", err, truncate(a, 100)))
+			}
+			peers = append(peers, rp)
+		}
+		vsched.Quiesce()
+		during := len(libraryThreads(vsched.LiveThreads()))
+		for _, rp := range peers {
+			if rp.Stream != nil {
+				rp.Stream.CloseFromClient() // the peer's connection is gone
+			}
+		}
+		vsched.Quiesce()
+		after := libraryThreads(vsched.LiveThreads())
+		if len(after) > base {
+			viol = append(viol, V(k("goroutine-leak"), "the server ran %d library goroutines before the peers came, %d while they were connected, and still %d after their connections are gone: %v", base, during, len(after), after))
+		}
+		if mode == "ls" {
+			// the session of a vanished legacy SSE peer is gone too: a late POST to it is refused
+			re := peers[0].React(http.MethodPost, "", []byte(`{"jsonrpc":"2.0","id":9,"method":"ping"}`), nil)
+			if re.Status == 202 {
+				viol = append(viol, V(k("session-survives"), "a POST to the session of a peer whose stream is gone is still accepted (202)"))
+			}
+		}
+		obs.Add("base=%d during=%d after=%d", base, during, len(after))
+	})
+	o := finishOutcome(res, obs, viol, true)
+	cr.ObsKey = cr.Desc + o.ObsKey
+	cr.Violations = o.Violations
+	cr.Broken = o.Broken
+	return cr
+}
+
 // c08RetryCancel: with retry configured the call spends most of its time waiting between
 // attempts; a cancelled context (or a deadline) must end it at once, not at the next attempt.
 func c08RetryCancel(tier string, i int) CaseResult {
@@ -619,6 +699,8 @@ func c08RetryCancel(tier string, i int) CaseResult {
 }
 
 func init() {
+	RegisterEnum(&Enum{Name: "c08/server-release", Doc: "server side: peers connect, call and vanish; with no context function, one that derives from the given context, and one that returns a context built from scratch; the goroutines the server started for the connections are released",
+		Count: func(string) int { return 9 }, Eval: c08ServerRelease})
 	RegisterEnum(&Enum{Name: "c08/retry-cancel", Doc: "clients with retry configured, every attempt answered 503: the context is cancelled (or its deadline passes) during the wait between two attempts; the call ends at once",
 		Count: func(string) int { return 6 }, Eval: c08RetryCancel})
 	RegisterEnum(&Enum{Name: "c08/get-refused", Doc: "Streamable client whose automatic listening stream is refused (405, 404, 400, 500, 503, 401, each with a body): calls work, and after Close no goroutine or response body of the refused exchange is left",
